@@ -103,7 +103,7 @@ def freeze(summ):
     return {a: (frozenset(v[0]), v[1], v[2]) for a, v in summ.items()}
 
 
-def run_conc(sess, spec, loop_bound=6, max_rounds=8, timeout_s=600, max_spurious=1, scenario=None, extract_only=False):
+def run_conc(sess, spec, loop_bound=6, max_rounds=8, timeout_s=600, max_spurious=1, scenario=None, extract_only=False, hb=False):
     """spec = {'setup': fn, 'threads': [(pre_fn|None, body_fn), ...], 'final': fn|None, 'covers': [...]}"""
     scenario = scenario or spec.get('name') or '+'.join(b for _, b in spec['threads'])
     t0 = time.time()
@@ -219,8 +219,9 @@ def run_conc(sess, spec, loop_bound=6, max_rounds=8, timeout_s=600, max_spurious
         return {'engine': eng, 'base': base, 'leaves': leaves, 'rounds': rounds, 'nthreads': nthreads,
                 'extract_s': extract_s, 'scenario': scenario}
     enc = Encoding(eng, base, leaves, nthreads)
+    enc.hb_mode = hb
     res = enc.decide(spec, scenario, timeout_s)
-    res.update({'scenario': scenario, 'mode': 'M2-SC', 'threads': nthreads, 'rounds': rounds,
+    res.update({'scenario': scenario, 'mode': 'M2hb (SC executions, C11 happens-before)' if hb else 'M2-SC', 'threads': nthreads, 'rounds': rounds,
                 'paths': sum(len(v) for v in leaves.values()), 'instrs': eng.stats['instrs'],
                 'queries': eng.nqueries + res.get('smt_queries', 0), 'explore_s': round(extract_s, 2),
                 'solver_s': round(eng.solver_time + res.get('smt_s', 0.0), 2), 'engine': eng})
@@ -312,6 +313,7 @@ class Encoding:
         self.nvars = 0
         self.nasserts = 0
         self.keep_all = False
+        self.hb_mode = False
         self.clock_bits = int(os.environ.get('IRSYM_CLOCK_BITS', '14'))
 
     def g(self, conds):
@@ -531,6 +533,109 @@ class Encoding:
         self.B = B
         return S
 
+    # ------------------------------------------------------------------ M2hb: C11 happens-before on SC executions
+    REL = ('release', 'acq_rel', 'seq_cst')
+    ACQ = ('acquire', 'acq_rel', 'seq_cst')
+
+    def is_release_write(self, w):
+        """z3 condition: w is executed as a write with release (or stronger) semantics."""
+        if w.kind not in ('W', 'U', 'C') or not w.atomic or w.ordering not in self.REL:
+            return None
+        return self.wrote(w)
+
+    def acquire_cond(self, r):
+        """z3 condition under which the read part of r has acquire (or stronger) semantics (None: never)."""
+        if r.kind not in ('R', 'U', 'C') or not r.atomic:
+            return None
+        if r.kind == 'C':
+            fail_ord = r.info[0] if isinstance(r.info, tuple) else None
+            s_ok = r.ordering in self.ACQ
+            f_ok = fail_ord in self.ACQ
+            if s_ok and f_ok:
+                return self.g(r.guard)
+            succ = r.succ if isinstance(r.succ, int) else ex.as_bool(r.succ)
+            if s_ok:
+                return self.g(r.guard) if succ == 1 else (z3.BoolVal(False) if succ == 0 else z3.And(self.g(r.guard), succ))
+            if f_ok:
+                return self.g(r.guard) if succ == 0 else (z3.BoolVal(False) if succ == 1 else z3.And(self.g(r.guard), z3.Not(succ)))
+            return None
+        return self.g(r.guard) if r.ordering in self.ACQ else None
+
+    def reads_from(self, r, w):
+        """r reads the value written by w, directly or through one RMW in between (release sequence)."""
+        kr = (r.thread, self.pos.get(r.id))
+        sv = self.src.get(kr)
+        if sv is None or w.id not in self.clk:
+            return None
+        direct = sv == self.clk[w.id]
+        opts = [direct]
+        for u in self.rmw_by_addr.get(r.addr, []):
+            if u is w or u is r or u.id not in self.clk:
+                continue
+            su = self.src.get((u.thread, self.pos.get(u.id)))
+            if su is None:
+                continue
+            opts.append(z3.And(self.wrote(u), sv == self.clk[u.id], su == self.clk[w.id]))
+        return z3.Or(*opts)
+
+    def hb(self, x, y):
+        """x (thread A) happens-before y (thread B != A) through one synchronises-with edge: a release write w of A
+        at or after x, read by r of B at or before y, r acquire or followed by an acquire fence before y.
+        Under-approximates hb for executions that need longer chains (3 threads): stated in the evidence."""
+        A, B = x.thread, y.thread
+        terms = []
+        fences = [f for f in self.thread_events.get(B, []) if f.kind == 'F' and f.ordering in self.ACQ and f.po <= y.po]
+        for w in self.thread_events.get(A, []):
+            if w.po < x.po or w.addr is None or w.addr not in self.contended:
+                continue
+            rw = self.is_release_write(w)
+            if rw is None:
+                continue
+            for r in self.thread_events.get(B, []):
+                if r.addr != w.addr or r.po > y.po or r.kind not in ('R', 'U', 'C') or r.local:
+                    continue
+                rf = self.reads_from(r, w)
+                if rf is None:
+                    continue
+                acq = self.acquire_cond(r)
+                conds = []
+                if acq is not None:
+                    conds.append(acq)
+                for f in fences:
+                    if f.po > r.po and r.atomic:
+                        conds.append(z3.And(self.g(r.guard), self.g(f.guard)))
+                if not conds:
+                    continue
+                terms.append(z3.And(rw, rf, z3.Or(*conds)))
+        return z3.Or(*terms) if terms else z3.BoolVal(False)
+
+    def race_terms(self):
+        self.rmw_by_addr = {}
+        for e in self.events.values():
+            if e.kind in ('U', 'C') and e.addr in self.contended:
+                self.rmw_by_addr.setdefault(e.addr, []).append(e)
+        out = []
+        by_addr = {}
+        for e in self.events.values():
+            if e.addr in self.contended and e.kind in ('R', 'W', 'U', 'C') and e.thread != 0 and e.id in self.clk:
+                by_addr.setdefault(e.addr, []).append(e)
+        for a, evs in by_addr.items():
+            if all(e.atomic for e in evs):
+                continue
+            for i, e1 in enumerate(evs):
+                for e2 in evs[i + 1:]:
+                    if e1.thread == e2.thread or (e1.atomic and e2.atomic):
+                        continue
+                    if e1.kind == 'R' and e2.kind == 'R':
+                        continue
+                    both = z3.And(self.g(e1.guard), self.g(e2.guard))
+                    t = z3.And(both, z3.Or(
+                        z3.And(self.lt(self.clk[e1.id], self.clk[e2.id]), z3.Not(self.hb(e1, e2))),
+                        z3.And(self.lt(self.clk[e2.id], self.clk[e1.id]), z3.Not(self.hb(e2, e1)))))
+                    out.append((e1, e2, t))
+        self.nraces = len(out)
+        return out
+
     def init_value(self, r):
         """Value of the cell before the concurrent phase (None: the object did not exist yet)."""
         st = self.base
@@ -566,6 +671,7 @@ class Encoding:
                     continue
                 if f.addr <= e.addr < f.addr + max(f.size, 1):
                     uaf.append((f, e))
+        races = self.race_terms() if self.hb_mode else []
         # every obligation is its own query (the combined disjunction is far harder for the solver than the sum
         # of its parts); identical (kind, ident) violations are reported once
         viol_terms = []
@@ -589,6 +695,9 @@ class Encoding:
         for f, e in uaf:
             viol_terms.append(z3.And(self.g(f.guard), self.g(e.guard), self.lt(self.clk[f.id], self.clk[e.id])))
             items.append((None, (f, e)))
+        for (e1, e2, term) in races:
+            viol_terms.append(term)
+            items.append((None, ('race', e1, e2)))
         verdict = 'holds'
         self.per_query = []
         self._S = S
@@ -603,7 +712,7 @@ class Encoding:
         for idx in range(len(viol_terms)):
             r2, dt, payload = results[idx]
             o, u = items[idx]
-            key = (o[2].kind, str(o[2].ident), o[0]) if o is not None else ('engine', 'use-after-free', 0)
+            key = (o[2].kind, str(o[2].ident), o[0]) if o is not None else (('race', '%#x' % u[1].addr, 0) if u[0] == 'race' else ('engine', 'use-after-free', 0))
             self.per_query.append((dt, key, r2))
             if r2 == 'sat':
                 if key in done_keys:
@@ -684,6 +793,14 @@ class Encoding:
         if o is not None:
             t, leaf, ob = o
             kind, ident, msg, where = ob.kind, ob.ident, ob.msg, eng.loc(ob.ins)
+        elif u[0] == 'race':
+            _, e1, e2 = u
+            kind, ident = 'race', 'data-race'
+            msg = 'data race (C11 happens-before, judged on an SC execution): %s by thread %d at %s  <->  %s by thread %d at %s' % (
+                'write' if e1.kind != 'R' else 'read', e1.thread, eng.loc(e1.ins).split(' <- ')[0],
+                'write' if e2.kind != 'R' else 'read', e2.thread, eng.loc(e2.ins).split(' <- ')[0])
+            where = eng.loc(e2.ins)
+            t = e2.thread
         else:
             f, e = u
             kind, ident = 'engine', 'use-after-free'
